@@ -33,7 +33,7 @@ Definition repo_e3eed7c : behaviour := mkBeh false false false false true true.
 
 (** THE SWITCH: which behaviour the library under test has; the extracted model driver replays this one.
     Set back to [repaired_except_pinned] once notes/proposed-fixes/C16-dataview-scalar-template.patch has landed. *)
-Definition current_behaviour : behaviour := repo_e3eed7c.
+Definition current_behaviour : behaviour := repaired_except_pinned.
 
 (** the switches that a patch can turn off *)
 Definition slices_repaired (B : behaviour) : Prop :=
